@@ -158,8 +158,13 @@ def scenarios(tier, seed):
                 ('declared int left without value', 'k int'), ('declared bool under a group left without value', 'grp\n  flag bool\n  n int = {k}'),
                 ('declared bool array left without value', 'flags bool[2]'), ('declared node among others left without value', 'b int = {k}\na float m\nc str = "x"'),
                 ('nested declaration left without value', 'g\n  a float m\nb int = {k}'),
+                ('constant node re-defined with its type keyword', 'a float = {x} m\n  !constant\na float = {y} m'), ('constant bool re-defined with its type keyword', 'b bool = true\n  !constant\nb bool = false'),
+                ('constant nested node re-defined with its type keyword', 'g\n  a int = {k}\n    !constant\ng.a int = {k}'), ('constant str re-defined with its type keyword', 's str = x\n  !constant\ns str = y'),
+                ('declared float then typed int assignment', 'a float m\na int = {k} km'), ('declared str then typed bool assignment', 'n str\nn bool = false'),
+                ('declared int then typed float assignment', 'k int\nk float = {x}'), ('declared nested float then typed int assignment', 'g\n  a float m\ng.a int = {k} m'),
+                ('declared float array then typed int array', 'v float[2] m\nv int[2] = [1,2]'), ('declared bool then typed int assignment', 'b bool\nb int = {k}'),
                 ('modification of an undefined node', 'a = {x} m'), ('unit on a boolean', 'b bool = true m'), ('bool assigned a number', 'b bool = {k}')]
-    accepted = [('declaration then value', 'a float m\na = {x}'), ('declaration then value in another prefix', 'a float m\na = {x} cm'),
+    accepted = [('declaration then typed value of the same type in another prefix', 'a float m\na float = {x} km'), ('declaration then value', 'a float m\na = {x}'), ('declaration then value in another prefix', 'a float m\na = {x} cm'),
                 ('constant never modified', 'a float = {x} m\n  !constant\nb float = {y} m'), ('typed modification of the same type', 'a float = {x} m\na float = {y} m')]
     S.append(Scenario('reject', REJECT_SRC, {'x': 'real', 'y': 'real', 'k': 'int'}, consts={'cases': rejected, 'accepted': accepted}, preamble=PRE,
                       what='inputs that must make parsing fail / succeed', samples=2))
